@@ -128,14 +128,22 @@ def check_q1(ctx) -> None:
     if not hdr_loops:
         # join form: `', '.join(outputs + [v[0] for v in inputs]) + '\n'`
         from gxstat.inline import inline_sequential
-        hd = [st for st in main.node.body if isinstance(st, ast.Assign) and norm(st.targets[0]) == HDR]
+        hd = [st for st in main.node.body if isinstance(st, ast.Assign) and norm(st.targets[0]) == HDR and
+              any(isinstance(c, ast.Attribute) and c.attr == 'join' for c in ast.walk(st.value)) and
+              not any(isinstance(x, ast.Name) and x.id == HDR for x in ast.walk(st.value))]        # later trims re-read the header itself
         ctx.require(len(hd) == 1, 'main: header is built neither by two loops nor by one join (idiom changed)')
         hv = inline_sequential(hd[0].value, hd[0])
         j = next((c for c in ast.walk(hv) if isinstance(c, ast.Call) and isinstance(c.func, ast.Attribute) and c.func.attr == 'join' and c.args), None)
-        ctx.require(j is not None and isinstance(j.args[0], ast.BinOp) and isinstance(j.args[0].op, ast.Add),
+        cols = j.args[0] if j is not None else None
+        # `''.join(c + ', ' for c in <columns>)`: the columns are what the comprehension runs over
+        if isinstance(cols, (ast.GeneratorExp, ast.ListComp)) and len(cols.generators) == 1 and not cols.generators[0].ifs:
+            cols = cols.generators[0].iter
+        ctx.require(isinstance(cols, ast.BinOp) and isinstance(cols.op, ast.Add),
                     'main: header is built neither by two loops nor by a join over outputs + inputs (idiom changed)')
         parts = []
-        for side in (j.args[0].left, j.args[0].right):
+        for side in (cols.left, cols.right):
+            if isinstance(side, ast.Call) and dotted_name(side.func) in ('list', 'tuple') and len(side.args) == 1:
+                side = side.args[0]
             if isinstance(side, ast.Name):
                 parts.append(side.id)
             elif isinstance(side, (ast.ListComp, ast.GeneratorExp)) and len(side.generators) == 1 and \
